@@ -2,7 +2,6 @@ package main
 
 import (
 	"fmt"
-	"go/types"
 	"strings"
 
 	"golang.org/x/tools/go/ssa"
@@ -81,42 +80,26 @@ func runC14(p *Program, r *Report) {
 	}
 	// ---- R4 prefix validators ----------------------------------------------------
 	regs, _ := p.AllRegexes()
-	lit, err := p.VarLit("template", "urlPrefixValidators")
+	validators, vsrc, err := prefixValidatorTable(p)
 	if err != nil {
-		r.Undec("C14.R4", "template.urlPrefixValidators", "", err.Error())
+		r.Undec("C14.R4", "template#prefix-validators", "", err.Error())
 		return
 	}
-	tpk := p.Pkg("template")
-	scType := tpk.Types.Scope().Lookup("sanitizationContext")
-	if scType == nil {
-		r.Undec("C14.R4", "template.sanitizationContext", "", "anchor not found")
-		return
-	}
-	names := ConstNames(tpk, scType.Type())
-	validators := map[string]*ssa.Function{}
-	for i, k := range lit.Keys {
-		kv, _ := k.Int()
-		f, _ := lit.Vals[i].Obj.(*types.Func)
-		if f == nil {
-			r.Undec("C14.R4", "template.urlPrefixValidators", p.Pos(lit.Pos), "non-function entry")
-			continue
-		}
-		validators[names[kv]] = p.SSA.FuncValue(f)
-	}
+	vpos := vsrc.Pos
 	// the map must be total over the URL-class contexts
 	want := map[string]string{"sanitizationContextURL": "url", "sanitizationContextTrustedResourceURLOrURL": "url", "sanitizationContextTrustedResourceURL": "tru"}
 	for _, sc := range sortedKeys(want) {
 		fn := validators[sc]
-		c := "template.urlPrefixValidators[" + sc + "]"
+		c := "template.urlPrefixValidators[" + sc + "]" // construct name kept stable; the table is found by data flow ("+vsrc.Name()+")
 		if fn == nil {
-			r.Viol("C14.R4", c, p.Pos(lit.Pos), "no prefix validator registered for this URL-class context", "")
+			r.Viol("C14.R4", c, vpos, "no prefix validator registered for this URL-class context", "")
 			continue
 		}
 		checkPrefixValidator(p, r, regs, fn, want[sc], c)
 	}
 	for sc := range validators {
 		if _, ok := want[sc]; !ok {
-			r.OK("C14.R4", "template.urlPrefixValidators["+sc+"]", p.Pos(lit.Pos), "extra entry (not a URL-class context of the statement)")
+			r.OK("C14.R4", "template.urlPrefixValidators["+sc+"]", vpos, "extra entry (not a URL-class context of the statement)")
 		}
 	}
 	// ---- R5 substitution validator -----------------------------------------------
